@@ -609,6 +609,7 @@ def select(dataset: DataSet, criteria: List[str] = [], logic='AND'):
             for criterion in criteria:
                 if eval('pt.'+criterion):
                     selected.append(pt)
+                    break  # a point is selected once, however many criteria it meets
         elif logic == 'AND':
             ok = True
             for criterion in criteria:
